@@ -31,6 +31,18 @@ func inc48(a []byte, d uint64) []byte {
 
 type challenge struct{ rnd, autn, sqn []byte }
 
+// nodeMem is the long-lived memory of the two nodes: a home environment and a USIM keep K, OPc,
+// SQN and the current RAND in fixed buffers that are overwritten in place from one exchange (and
+// one subscriber) to the next. Histories marked "reuse" hand the library these same buffers every
+// time, so that anything the library remembers about an argument by reference (instead of by
+// value) shows up as a wrong result later in the process.
+var nodeMem = map[string][]byte{}
+
+type inbuf struct {
+	name      string
+	got, want []byte
+}
+
 // rigAKA: HE node (library generator) and UE node (library checker), both shadowed by the
 // reference Milenage, with a channel that corrupts, replays and reorders tokens.
 func rigAKA() {
@@ -45,8 +57,36 @@ func runAKAHistory(hi int, h hmap) {
 	fail := func(oi int, rule, site, format string, a ...interface{}) {
 		viol(hi, rule, site, fmt.Sprintf("op %d: ", oi)+fmt.Sprintf(format, a...), hmap{"op": oi})
 	}
+	reuse, _ := h["reuse"].(bool)
+	var ins []inbuf
+	// in hands an input to the library: a fresh copy, or (reuse) the node's fixed buffer for it
+	in := func(name string, b []byte) []byte {
+		var s []byte
+		if reuse {
+			s = nodeMem[name]
+			if len(s) != len(b) {
+				s = make([]byte, len(b))
+				nodeMem[name] = s
+			}
+			copy(s, b)
+		} else {
+			s = append([]byte{}, b...)
+		}
+		ins = append(ins, inbuf{name, s, append([]byte{}, b...)})
+		return s
+	}
+	// inputs belong to the caller: the library must leave them as they were
+	checkIns := func(oi int, site string) {
+		for _, x := range ins {
+			if !bytes.Equal(x.got, x.want) {
+				fail(oi, "aka.input-mutated", site, "the library changed its input %s from %x to %x", x.name, x.want, x.got)
+			}
+		}
+		ins = ins[:0]
+	}
 	refOPc := crypto.OPc(k, op)
-	opc, err := milenage.GenerateOPC(k, op)
+	opc, err := milenage.GenerateOPC(in("k", k), in("op", op))
+	checkIns(-1, "GenerateOPC")
 	if err != nil || !bytes.Equal(opc, refOPc) {
 		fail(-1, "aka.opc", "GenerateOPC", "OPc %x (err %v), TS 35.206 gives %x", opc, err, refOPc)
 		opc = refOPc
@@ -65,7 +105,8 @@ func runAKAHistory(hi int, h hmap) {
 			sqnHE = inc48(sqnHE, uint64(num(op, "delta", 1)))
 			autn, ik, ck, ak, res := make([]byte, 16), make([]byte, 16), make([]byte, 16), make([]byte, 6), make([]byte, 8)
 			rl := uint(8)
-			milenage.MilenageGenerate(opc, amf, k, sqnHE, rnd, autn, ik, ck, ak, res, &rl)
+			milenage.MilenageGenerate(in("opc", opc), in("amf", amf), in("k", k), in("sqn", sqnHE), in("rnd", rnd), autn, ik, ck, ak, res, &rl)
+			checkIns(oi, "MilenageGenerate")
 			rres, rck, rik, rak, raks := crypto.F2345(k, refOPc, rnd)
 			rautn := crypto.AUTN(k, refOPc, rnd, sqnHE, amf)
 			if rl != 8 || !bytes.Equal(autn, rautn) || !bytes.Equal(res, rres) || !bytes.Equal(ck, rck) || !bytes.Equal(ik, rik) || !bytes.Equal(ak, rak) {
@@ -74,11 +115,15 @@ func runAKAHistory(hi int, h hmap) {
 			// the primitive entry points
 			ma, ms := make([]byte, 8), make([]byte, 8)
 			rma, rms := crypto.F1(k, refOPc, rnd, sqnHE, amf)
-			if e := milenage.F1(opc, k, rnd, sqnHE, amf, ma, ms); e != nil || !bytes.Equal(ma, rma) || !bytes.Equal(ms, rms) {
+			e1 := milenage.F1(in("opc", opc), in("k", k), in("rnd", rnd), in("sqn", sqnHE), in("amf", amf), ma, ms)
+			checkIns(oi, "F1")
+			if e := e1; e != nil || !bytes.Equal(ma, rma) || !bytes.Equal(ms, rms) {
 				fail(oi, "aka.f1", "F1", "f1 %x f1* %x (err %v), TS 35.206 gives %x %x", ma, ms, e, rma, rms)
 			}
 			r2, c2, i2, a2, s2 := make([]byte, 8), make([]byte, 16), make([]byte, 16), make([]byte, 6), make([]byte, 6)
-			if e := milenage.F2345(opc, k, rnd, r2, c2, i2, a2, s2); e != nil || !bytes.Equal(r2, rres) || !bytes.Equal(c2, rck) || !bytes.Equal(i2, rik) || !bytes.Equal(a2, rak) || !bytes.Equal(s2, raks) {
+			e2 := milenage.F2345(in("opc", opc), in("k", k), in("rnd", rnd), r2, c2, i2, a2, s2)
+			checkIns(oi, "F2345")
+			if e := e2; e != nil || !bytes.Equal(r2, rres) || !bytes.Equal(c2, rck) || !bytes.Equal(i2, rik) || !bytes.Equal(a2, rak) || !bytes.Equal(s2, raks) {
 				fail(oi, "aka.f2345", "F2345", "f2 %x f3 %x f4 %x f5 %x f5* %x (err %v), TS 35.206 gives %x %x %x %x %x", r2, c2, i2, a2, s2, e, rres, rck, rik, rak, raks)
 			}
 			ch = challenge{rnd, rautn, append([]byte{}, sqnHE...)}
@@ -120,7 +165,8 @@ func runAKAHistory(hi int, h hmap) {
 		// UE node
 		ik, ck, res, auts := make([]byte, 16), make([]byte, 16), make([]byte, 8), make([]byte, 14)
 		rl := uint(0)
-		rc := milenage.Milenage_check(opc, k, append([]byte{}, sqnUE...), rnd, autn, ik, ck, res, &rl, auts)
+		rc := milenage.Milenage_check(in("ue-opc", opc), in("ue-k", k), in("ue-sqn", sqnUE), in("ue-rnd", rnd), in("ue-autn", autn), ik, ck, res, &rl, auts)
+		checkIns(oi, "Milenage_check")
 		site := "Milenage_check/" + kind
 		if fault != "" {
 			site += "/" + fault
@@ -150,13 +196,17 @@ func runAKAHistory(hi int, h hmap) {
 			}
 			// network side
 			out := make([]byte, 6)
-			if v := milenage.Milenage_auts(opc, k, rnd, rauts, out); v != 0 || !bytes.Equal(out, sqnUE) {
+			v1 := milenage.Milenage_auts(in("opc", opc), in("k", k), in("rnd", rnd), in("auts", rauts), out)
+			checkIns(oi, "Milenage_auts")
+			if v := v1; v != 0 || !bytes.Equal(out, sqnUE) {
 				fail(oi, "aka.auts-check", "Milenage_auts", "genuine AUTS: return %d, SQN %x; the UE's SQN is %x", v, out, sqnUE)
 			}
 			// corrupted AUTS must be refused
 			bad := append([]byte{}, rauts...)
 			bad[num(op, "auts_off", 6)%14] ^= 1 << uint(num(op, "auts_bit", 0)%8)
-			if v := milenage.Milenage_auts(opc, k, rnd, bad, out); v == 0 {
+			v2 := milenage.Milenage_auts(in("opc", opc), in("k", k), in("rnd", rnd), in("auts", bad), out)
+			checkIns(oi, "Milenage_auts")
+			if v := v2; v == 0 {
 				fail(oi, "aka.auts-forged", "Milenage_auts", "AUTS with octet %d corrupted was accepted", num(op, "auts_off", 6)%14)
 			}
 			sqnHE = inc48(sqnUE, 0) // resynchronise
